@@ -27,6 +27,7 @@ Not covered by Copy (known finding copy-misses-reset-object): a `CreateAccount` 
 -/
 import LinkVerif.Props.C09World
 import LinkVerif.Props.C09Journal
+import LinkVerif.Props.C09Blocks
 import LinkVerif.Gen.C09Facts
 
 namespace Props.C09
@@ -215,5 +216,10 @@ theorem mutators_all_journal : Gen.C09Facts.journalled.all (fun p => p.2) = true
 
 /-- `journal.revert` undoes the entry AT the snapshot index too (`revertJournal` stops at length n, i.e. undoes index n) -/
 theorem revert_loop_inclusive : Gen.C09Facts.revertLoopInclusive = true := by decide
+
+/-- the order of writes the undo-log model (`kvCommit`, `kvOpen`) assumes: `SaveWAL(height)` before any object is written; in every
+trie commit the old value is read before the update is queued and the log is synced before the batch; the log is replayed exactly
+when the stored height is one ahead of the block store -/
+theorem wal_order_facts : (Gen.C09Facts.saveWalBeforeObjects && Gen.C09Facts.walSyncedBeforeBatch && Gen.C09Facts.rebuildWhenOneAhead) = true := by decide
 
 end Props.C09
